@@ -14,6 +14,7 @@ import TvFs.Proofs.InventsFx
 import TvFs.Proofs.Durable4
 import TvFs.Proofs.Repairs
 import TvFs.Proofs.CommittedSpec
+import TvFs.Proofs.DurableX
 
 namespace TV.C07
 open TV.Fs
@@ -267,22 +268,35 @@ theorem C07_partial_before (h : List Op) (hf : flatRun Live.init h = true) (ora 
   rw [runSt_append, sRunSt_append]
   exact crash_view hD ora.torn ora.torn n
 
-/-- `C07_partial`: the full statement restricted to the flat fragment — histories of any length over
-    any number of files directly under the root and any number of handles: open with every flag
-    combination (create, create_new, append, truncate of empty files), positional and cursor reads and
-    writes with holes and overlaps, extending set_len, sync_all, sync_data, sync_dir of the root,
-    metadata / exists / read_dir / fs::read / fs::write — crashed after any prefix (the fragment is
-    prefix closed) in the atomic-write configuration, for every torn-write oracle.  After the crash a
-    file is present iff the root was synced after its creation, with the content of its last data sync;
-    everything else is rolled back.  Proof: inside the fragment the committed repairs change no step of
-    the implementation model (`stepFx_c`) and the ghost of the repaired durable spec stays empty
-    (`sStepFx_c`), so `C07_partial_before` carries over (`c07_partial_committed`). -/
-theorem C07_partial (h : List Op) (hf : flatRun Live.init h = true) (ora : Ora) (n : Nat) :
+/-- `C07_partial`: the full statement restricted to the flat fragment `flatRunC` — histories of any
+    length over any number of files directly under the root and any number of handles, with **every**
+    call except `remove_file` / `remove_dir` / `remove_dir_all` / `rename` / `create_dir` /
+    `create_dir_all`: open with every flag combination (create, create_new, append, truncate — also of
+    non-empty files), positional and cursor reads and writes with holes and overlaps, `set_len` growing
+    *and shrinking*, `fs::write` over existing files, sync_all, sync_data, sync_dir of the root,
+    metadata / exists / read_dir / fs::read — crashed after any prefix (the fragment is prefix closed)
+    in the atomic-write configuration, for every torn-write oracle.  After the crash a file is present
+    iff the root was synced after its creation, with the content of its last data sync; everything else
+    is rolled back.  Proof: simulation directly on the model of the committed code — live relation `RX`
+    (`sim_stepX`), durable relation `D` (`dsim_stepX`), `crash_view`; the ghost of the repaired durable
+    spec stays empty (`sStepFx_c`).
+    What stays outside, and why: directories below the root (`D` speaks about root-level files only:
+    one key space `(0, n)`; K / O cover them), removal and rename (open findings F-C07-2, 3, 4, 5, 8, 12),
+    random background sync and torn writes (`sync_probability`, `block_size`: K / O; the state-level
+    theorems below hold for every block size). -/
+theorem C07_partial (h : List Op) (hf : flatRunC h = true) (ora : Ora) (n : Nat) :
     let st := runStFx Fixes.committed {} St.init (quiet h ++ [(Op.crash, ora)])
     let sp := sRunStFx Fixes.committed {} Spec.init (quiet h ++ [(Op.crash, ora)])
     ancestorsAreDirs sp.l [n] = true → viewOfFx Fixes.committed st.fs [n] = sView sp.l [n] := by
   intro st sp _
-  exact c07_partial_committed h hf ora n
+  exact c07_partial_committedX h hf ora n
+
+/-- the fragment of `C07_partial_before` lies inside the new one -/
+theorem C07_partial_oldFragment (h : List Op) (hf : flatRun Live.init h = true) (ora : Ora) (n : Nat) :
+    let st := runStFx Fixes.committed {} St.init (quiet h ++ [(Op.crash, ora)])
+    let sp := sRunStFx Fixes.committed {} Spec.init (quiet h ++ [(Op.crash, ora)])
+    ancestorsAreDirs sp.l [n] = true → viewOfFx Fixes.committed st.fs [n] = sView sp.l [n] :=
+  C07_partial h (flatRun_flatRunC h _ hf) ora n
 
 /-- the flat fragment is not trivial: two files, one made durable (entry and data), one only
     fsynced, later writes lost -/
@@ -290,9 +304,25 @@ def flatExample : List Op :=
   [.open 0 a { r := true, w := true, c := true }, .writeAt 0 1 [65, 66], .syncAll 0, .syncDir [],
    .writeAt 0 0 [67], .open 1 b WC, .writeAt 1 0 [68], .syncAll 1, .setLen 0 5]
 
-example : flatRun Live.init flatExample = true := by decide
+example : flatRunC flatExample = true := by decide
 example : implAfterCrash Fixes.committed flatExample a = .file 3 [0, 65, 66] := by decide
 example : implAfterCrash Fixes.committed flatExample b = .none := by decide
+
+/-- inside the new flat fragment, outside the old one: overwrite by `fs::write` (truncate + write) of
+    a durable file, fsynced — the new content is durable; a second overwrite and a shrinking `set_len`
+    that are not fsynced are rolled back; truncating open of a non-empty file -/
+def flatExampleNew : List Op :=
+  [.writeFile a [65, 66, 67, 68], .open 0 a { r := true, w := true }, .syncAll 0, .syncDir [],
+   .writeFile a [69, 70], .syncAll 0, .writeFile a [71], .setLen 0 0,
+   .open 1 a { w := true, t := true }, .writeFile b [1, 2, 3], .syncDir []]
+
+example : flatRunC flatExampleNew = true := by decide
+example : flatRun Live.init flatExampleNew = false := by decide
+example : flatRun Live.init [.writeFile a [65], .writeFile a [66]] = false := by decide
+example : implAfterCrash Fixes.committed flatExampleNew a = .file 2 [69, 70] := by decide
+example : specAfterCrash Fixes.committed flatExampleNew a = .file 2 [69, 70] := by decide
+/-- `/b` is durable as a name but its data was never fsynced: an empty file -/
+example : implAfterCrash Fixes.committed flatExampleNew b = .file 0 [] := by decide
 
 def bytesWritten (h : List (Op × Ora)) : List Nat := h.flatMap fun x => opData x.1
 
